@@ -172,12 +172,12 @@ def run(ctx):
     quick = ctx.tier == "quick"
     ctx.rule = ("one trace per program generated by TLC from spec/FrameGen.tla (exhaustive one-statement and call-pair "
                 "programs, seeded simulation of longer programs), executed by the real interpreter with a read-back of the "
-                "whole pool (49 names: locals of caller and callees incl. a TIME local and a never-assigned STRING local, re.group.0-2, 6 header names (value, other spelling, sub-field, second header, one starting not set, one starting empty) + 1 variable on each of "
+                "whole pool (64 names: locals and parameters of caller and callees of every VCL parameter type incl. TIME, BACKEND, REGEX, IP, ACL and a never-assigned STRING local, req.backend and the declared backend / director identifiers, re.group.0-2, 6 header names (value, other spelling, sub-field, second header, one starting not set, one starting empty) + 1 variable on each of "
                 "req/bereq/beresp/obj/resp) around every executed statement at every call depth; each event is one step of "
                 "spec/FrameTrace.tla; distinct = distinct programs with at least one event")
     ctx.assumptions = [
         "values are compared through their printed value plus flags (not-set, NaN/inf); pointer identity is observed only through later reads",
-        "types covered: INTEGER FLOAT RTIME STRING BOOL TIME locals and STRING headers (no IP / ACL / BACKEND locals)",
+        "types covered: INTEGER FLOAT RTIME STRING BOOL TIME BACKEND locals, parameters of all ten VCL parameter types, STRING headers",
         "the effect of unset / add statements and re.group.* written by an expression without a match are reported as drift: the property statement does not speak about them",
         "objects that are not readable in the program's scope are read by switching the interpreter's scope between statements (SetScope), which touches no request state",
     ]
